@@ -412,6 +412,8 @@ def evaluate(ast, env: Env):
             return ta + tb
         if op == '*' and (isinstance(a, str) or isinstance(b, str)):
             env.events.add('text_in_product')
+        if op == '+' and isinstance(a, str) and isinstance(b, str):
+            env.events.add('text_plus_text')
         a, b = to_num(a), to_num(b)
         if isinstance(a, Err):
             return a
